@@ -15,7 +15,9 @@ def int_matrix(rows, cols, lo, hi):
 
 def weighted(*pairs):
     """one_of with integer weights: weighted((3, stratA), (1, stratB))."""
-    pool = []
-    for w, s in pairs:
-        pool.extend([s] * w)
-    return st.one_of(*pool)
+    # st.one_of de-duplicates identical strategy objects, so the weighting is done on indices
+    idx = []
+    for i, (w, _) in enumerate(pairs):
+        idx.extend([i] * w)
+    strategies = [s for _, s in pairs]
+    return st.sampled_from(idx).flatmap(lambda i: strategies[i])
